@@ -35,14 +35,18 @@ def mangled(part):
 
 def stop_write_hook(P, n):
     """`<queue>.m_stop = v` -> nv_set_stop(&<queue>.m_stop, v): makes the lock state at the write observable"""
-    if n.get('kind') != 'BinaryOperator' or n.get('opcode') != '=':
-        return None
     from cxx2c import unwrap
-    lhs = unwrap(n['inner'][0])
-    if lhs.get('kind') != 'MemberExpr' or lhs.get('name') != 'm_stop':
+    if n.get('kind') == 'CXXOperatorCallExpr' and len(n.get('inner', [])) == 3 and \
+            (unwrap(n['inner'][0]).get('referencedDecl') or {}).get('name') == 'operator=':
+        lhs, rhs = n['inner'][1], n['inner'][2]      # `m_stop = v` on a std::atomic<bool> member
+    elif n.get('kind') == 'BinaryOperator' and n.get('opcode') == '=':
+        lhs, rhs = n['inner'][0], n['inner'][1]
+    else:
+        return None
+    if unwrap(lhs).get('kind') != 'MemberExpr' or unwrap(lhs).get('name') != 'm_stop':
         return None
     P.note('m_stop = v -> nv_set_stop')
-    return f'nv_set_stop({P.addr(n["inner"][0])}, {P.expr(n["inner"][1])})'
+    return f'nv_set_stop({P.addr(lhs)}, {P.expr(rhs)})'
 
 
 def targs(*want):
